@@ -6,6 +6,7 @@
    this property / before the two earlier ones: what they did is kept as `_legacy_refuted` statements.
    fmt (format of a non-str value in the f-string `basename:name`, only reachable before the repairs)
    and fnmatch are oracles: every theorem holds for all of them. *)
+From Coq Require Import Sorting.Permutation Sorting.Sorted.
 From DoitV Require Import Base Loader LoaderP.
 Open Scope Z_scope.
 Open Scope string_scope.
@@ -206,6 +207,75 @@ Proof.
   split; reflexivity.
 Qed.
 Print Assumptions C18_wellformed_group_replaced_legacy_refuted.
+
+(* ================================================================== definition order *)
+
+(* load_namespace = _get_task_creators on the (name, object) pairs of the namespace, funcs.sort(key=line),
+   then load.  The definition line of every task-creator (inspect.getsourcelines) is an input.
+   The creators are taken in the order of their definition lines, whatever their names and whatever
+   their position in the namespace; creators of one line (aliases, creators sharing the wrapper of a
+   decorator that hides them from inspect) keep the order of the namespace.  The three facts
+   (permutation, sorted, stable) determine the order uniquely. *)
+Theorem C18_definition_order_sort : forall l,
+  Permutation (sort_by_line l) l /\
+  StronglySorted (fun a b => fst a <= fst b) (sort_by_line l) /\
+  (forall k, filter (fun x => (fst x =? k)%Z) (sort_by_line l) = filter (fun x => (fst x =? k)%Z) l).
+Proof.
+  intros l. exact (conj (sort_by_line_perm l) (conj (sort_by_line_sorted l) (fun k => sort_by_line_stable k l))).
+Qed.
+Print Assumptions C18_definition_order_sort.
+
+(* on an accepted namespace: the task names are those of the creators (C18_wellformed) taken in
+   definition order: a creator loaded before another one is defined on a smaller or the same line;
+   two creators defined on the same line are loaded in the order of the namespace *)
+Theorem C18_definition_order : forall fmt fnmatch cmds allow ns ts,
+  load_namespace fmt fnmatch L2 cmds allow ns = Ok ts ->
+  let cs := sort_by_line (get_task_creators ns) in
+  map t_name ts = flat_map (creator_keys allow) (map snd cs) /\
+  Permutation cs (get_task_creators ns) /\
+  (forall p q r a b, cs = (p ++ a :: q ++ b :: r)%list -> fst a <= fst b) /\
+  (forall p q r a b, get_task_creators ns = (p ++ a :: q ++ b :: r)%list -> fst a = fst b ->
+     exists p' q' r', cs = (p' ++ a :: q' ++ b :: r')%list).
+Proof.
+  intros fmt fnmatch cmds allow ns ts H cs.
+  exact (conj (load_namespace_names fmt fnmatch cmds allow ns ts H)
+        (conj (sort_by_line_perm _)
+        (conj (fun p q r a b => sort_by_line_order _ p q r a b)
+              (fun p q r a b => sort_by_line_same_line _ p q r a b)))).
+Qed.
+Print Assumptions C18_definition_order.
+
+(* and no namespace makes loading end in an internal traceback *)
+Theorem C18_total_namespace : forall fmt fnmatch cmds allow ns c,
+  load_namespace fmt fnmatch L2 cmds allow ns <> Crash c.
+Proof. exact load_namespace_total. Qed.
+Print Assumptions C18_total_namespace.
+
+(* satisfiable: the namespace of a dodo file as inspect.getmembers gives it (sorted by name):
+   task_alpha (line 29), task_gen (23), task_middle (19), task_zeta (15), an object with a
+   create_doit_tasks attribute (line 40), plus objects that are not task-creators (a module, a
+   functools.partial object called task_partial, the decorator): tasks are loaded zeta, middle, gen
+   (+ sub-tasks in yield order), alpha, sample.
+   With one line for all but task_middle (what a line taken from a shared wrapper gives) the order is the
+   one of the namespace: alpha, gen, zeta, and only then middle *)
+Example C18_definition_order_nonvacuous : forall fmt fnmatch,
+  let A := (KAttr AActions, VNone) in
+  let CI l r := {| ci_line := l; ci_result := r; ci_delayed := None |} in
+  let E n f l r cr := {| e_name := n; e_is_task_params := false; e_isfunc := f; e_self := CI l r; e_create := cr |} in
+  let ns l1 l2 l3 l4 :=
+    [ E "functools" false 0 INone None;
+      E "sample" true 40 (IDict [A]) (Some (None, CI 40 (IDict [A])));
+      E "task_alpha" true l1 (IDict [A]) None;
+      E "task_gen" true l2 (IGen [IDict [A; (KName, VStr "b")]; IDict [A; (KName, VStr "a")]]) None;
+      E "task_middle" true l3 (IDict [A]) None;
+      E "task_partial" false 0 INone None;
+      E "task_zeta" true l4 (IDict [A]) None;
+      E "traced" true 5 INone None ] in
+  (exists ts, load_namespace fmt fnmatch L2 ["list"; "run"] false (ns 29 23 19 15) = Ok ts /\
+              map t_name ts = ["zeta"; "middle"; "gen"; "gen:b"; "gen:a"; "alpha"; "sample"]) /\
+  (exists ts, load_namespace fmt fnmatch L2 ["list"; "run"] false (ns 8 8 19 8) = Ok ts /\
+              map t_name ts = ["alpha"; "gen"; "gen:b"; "gen:a"; "zeta"; "middle"; "sample"]).
+Proof. intros. split; eexists; (split; [vm_compute; reflexivity | reflexivity]). Qed.
 
 (* ================================================================== bad input is rejected *)
 
